@@ -611,13 +611,19 @@ impl Allocator {
     /// => ...` is parsed as a function of two arguments, which are bare enum tags `'Foo` and
     /// `'Bar`. We must print `fun ('Foo 'Bar) => ..` instead.
     fn pat_with_parens<'a>(&'a self, pattern: &Pattern) -> DocBuilder<'a, Self> {
-        pattern.pretty(self).parens_if(matches!(
-            pattern.data,
-            PatternData::Enum(EnumPattern {
-                pattern: Some(_),
-                ..
-            }) | PatternData::Or(_)
-        ))
+        // The parentheses go around the enum variant or the or-pattern itself: an alias stays
+        // outside, as in `fun x @ ('Foo y) => ..` (`(x @ 'Foo y)` isn't a valid pattern).
+        docs![
+            self,
+            pattern.alias_prefix(self),
+            pattern.data.pretty(self).parens_if(matches!(
+                pattern.data,
+                PatternData::Enum(EnumPattern {
+                    pattern: Some(_),
+                    ..
+                }) | PatternData::Or(_)
+            ))
+        ]
     }
 
     /// Uniform handling of application-like syntax.
@@ -738,9 +744,10 @@ impl<'a> Pretty<'a, Allocator> for &PrimOp {
     }
 }
 
-impl<'a> Pretty<'a, Allocator> for &Pattern<'_> {
-    fn pretty(self, allocator: &'a Allocator) -> DocBuilder<'a, Allocator> {
-        let alias_prefix = if let Some(alias) = self.alias {
+impl Pattern<'_> {
+    /// The `alias @ ` part of a pattern, if any.
+    fn alias_prefix<'a>(&self, allocator: &'a Allocator) -> DocBuilder<'a, Allocator> {
+        if let Some(alias) = self.alias {
             docs![
                 allocator,
                 alias.to_string(),
@@ -750,9 +757,13 @@ impl<'a> Pretty<'a, Allocator> for &Pattern<'_> {
             ]
         } else {
             allocator.nil()
-        };
+        }
+    }
+}
 
-        docs![allocator, alias_prefix, &self.data]
+impl<'a> Pretty<'a, Allocator> for &Pattern<'_> {
+    fn pretty(self, allocator: &'a Allocator) -> DocBuilder<'a, Allocator> {
+        docs![allocator, self.alias_prefix(allocator), &self.data]
     }
 }
 
